@@ -60,6 +60,15 @@ class C03(Prop):
             pattern = [None if rng.chance(1, 3) else i + 1 for i in range(n)]
             yield self._tag(mk_remove_case(rng.choice(["f64", "oi32", "ou8", "on64", "f32", "oi128"]), pattern,
                                            rng.choice([1, 2, 3, -1, -2, -3]), rng.below(3), rng.below(2), nanvar=rng.below(5)), "rm")
+        # lanes of word-size length (32, 64, 128 and their neighbours), missing value first, present value last
+        for n in (31, 32, 33, 63, 64, 65, 128):
+            pattern = [None if rng.chance(1, 4) else i + 1 for i in range(n)]
+            pattern[0], pattern[-1] = None, n
+            yield self._tag(mk_remove_case(rng.choice(["f64", "oi32", "on64", "f32"]), pattern, rng.choice([1, -1, 2]), rng.below(2), rng.below(2),
+                                           nanvar=rng.below(5)), "rm")
+            qvals = [None if rng.chance(1, 4) else rng.range(-6, 6) * 0.25 for _ in range(2 * n)]
+            qvals[0], qvals[n - 1] = None, 1.25
+            yield self._tag(mk_qsk_case("f64", rng.below(5), [2, n], qvals, 0.5, rng.choice(zoo([2, n], rng, 2)), 1, ("P", rng.below(3))), "qsk")
 
     def _tag(self, case, kind):
         case.kind = kind
